@@ -19,6 +19,9 @@ def build():
     U.const(NN_H, 'maxIncr', 'NNEvaluator')
     U.const(NN_H, 'maxStackSize', 'NNEvaluator')
     U.in_class_scope('NNEvaluator', ['maxIncr', 'maxStackSize'])
+    # BOUNDED stand-in for the stack functions: the 400-level stack of first-layer states (38 KB object) makes every symbolic-level access
+    # intractable (12-20 GB in both dfcc and mode M); their groups are run with a stack of NN_STACK_BOUND levels and labelled bounded
+    U.raw('#ifdef NN_STACK_BOUND\n#undef NNEvaluator_maxStackSize\n#define NNEvaluator_maxStackSize NN_STACK_BOUND\n#endif\n')
     # one generic lane of the first-layer accumulator (A-LANE: lanes are independent in the generic kernels)
     fls = U.struct(NN_H, 'FirstLayerState', typeover={'l1Out': ('S16', 'S16', ''), 'pad': None},
                    expect=[('Vector<S16, n1>', 'l1Out', ''), ('int', 'toAdd', '[maxIncr]'), ('int', 'toSub', '[maxIncr]'), ('int', 'toAddLen', ''), ('int', 'toSubLen', ''),
@@ -42,6 +45,17 @@ def build():
     U.pull(NN_H, 'NNEvaluator::getLinState')
     U.pull(NN_C, 'NNEvaluator::forceFullEval')
     U.pull(NN_C, 'NNEvaluator::setPiece', rules=[(r'auto isNonKing = \[\]\(int p\) \{\s*return p != Piece::EMPTY && p != Piece::WKING && p != Piece::BKING;\s*\};', '', 1)])
+    # per-perspective body of the loop of setPiece as a fragment on one FirstLayerState (continue == return in a loop body)
+    LAMBDA = r'auto isNonKing = \[\]\(int p\) \{\s*return p != Piece::EMPTY && p != Piece::WKING && p != Piece::BKING;\s*\};'
+    fr = U.fragment(NN_C, 'NNEvaluator_setPiece_one', r'Square kSq = s\.kingSqComputed;', r'\}\s*\Z', within='NNEvaluator::setPiece',
+                    params=[('FirstLayerState', 's', True), ('Square', 'square', False), ('int', 'oldPiece', False), ('int', 'newPiece', False), ('int', 'c', False)],
+                    cls='NNEvaluator', is_static=True, rules=[(r'\bcontinue;', 'return;', 3)])
+    U.tr.classes['NNEvaluator'].methods.setdefault((fr.cname, len(fr.params), False), {})[''] = fr
+    # tiling pin: setPiece is "for both perspectives c: <fragment>(getLinState(c), square, oldPiece, newPiece, c)"
+    sp = find_function(src, 'NNEvaluator::setPiece')
+    m0 = re.search(r'Square kSq = s\.kingSqComputed;', sp.body)
+    if not m0 or norm(re.sub(LAMBDA, '', sp.body[:m0.start()])) != 'for (int c = 0; c < 2; c++) { FirstLayerState& s = getLinState(c);' or not re.search(r'\}\s*\}\s*\Z', sp.body):
+        raise ExtractError('tiling pin changed: loop header of NNEvaluator::setPiece')
     U.pull(NN_C, 'NNEvaluator::pushState')
     U.pull(NN_C, 'NNEvaluator::popState', rules=[(r'forceFullEval\(\);', 'forceFullEval(true);', 1)])
     return U
@@ -59,14 +73,25 @@ int ghost_c;    /* arbitrary perspective */
 #define SWAPPT(pt) ((pt) >= 5 ? (pt) - 5 : (pt) + 5)
 #define FLS(self, c) ((self)->stack.flState[(self)->stack.stackTop][c])
 static S16 spec_pending(const struct FirstLayerState* s) {   /* l1Out plus queued additions minus queued subtractions (16-bit wrap-around) */
-    unsigned v = (U16)s->l1Out;
-    for (int i = 0; i < 4; i++) { if (i < s->toAddLen) v += (U16)W(s->toAdd[i]); if (i < s->toSubLen) v -= (U16)W(s->toSub[i]); }
-    return (S16)(U16)v; }
+    /* additions and subtractions are summed in separate chains, in queue order, so that appending to a queue extends a chain at its end */
+    unsigned a = 0, b = 0;
+    for (int i = 0; i < 4; i++) { if (i < s->toAddLen) a += (U16)W(s->toAdd[i]); }
+    for (int i = 0; i < 4; i++) { if (i < s->toSubLen) b += (U16)W(s->toSub[i]); }
+    return (S16)(U16)((U16)s->l1Out + a - b); }
 /* incremental state of perspective c is consistent: invalid, or accumulator + pending == from-scratch value */
 static _Bool acc_ok(const struct NNEvaluator* e, int c) {
     const struct FirstLayerState* s = &e->stack.flState[e->stack.stackTop][c];
     if (s->toAddLen < 0 || s->toAddLen > 4 || s->toSubLen < 0 || s->toSubLen > 4 || s->kingSqComputed < -1 || s->kingSqComputed > 63) return 0;
     return s->kingSqComputed == -1 || spec_pending(s) == ghost_full[c]; }
+static _Bool st_ok(const struct FirstLayerState* s) {
+    return !(s->toAddLen < 0 || s->toAddLen > 4 || s->toSubLen < 0 || s->toSubLen > 4 || s->kingSqComputed < -1 || s->kingSqComputed > 63); }
+/* complete case split on the queue lengths of the state (5 x 5 cases, each a separate run) */
+#ifdef CASE_AL
+#define ST_CASE(s) ((s)->toAddLen == CASE_AL && (s)->toSubLen == CASE_SL)
+#else
+#define ST_CASE(s) 1
+#endif
+#define ST_ACC(s, c) ((s)->kingSqComputed == -1 || spec_pending(s) == ghost_full[c])
 /* complete case split over the stack level (0 .. maxStackSize-1): each case is a separate run with a constant level */
 #ifdef CASE_TOP
 #define STACK_OK(e) ((e)->stack.stackTop == CASE_TOP && CASE_TOP < NNEvaluator_maxStackSize)
@@ -100,6 +125,19 @@ CONTRACTS = {
                         'if (isNonKing(oldPiece)) ghost_v -= (U16)W(nn_getIndex(ghost_k, NNEvaluator_ptValue_AT(oldPiece), square, ghost_i == 0)); '
                         'if (isNonKing(newPiece)) ghost_v += (U16)W(nn_getIndex(ghost_k, NNEvaluator_ptValue_AT(newPiece), square, ghost_i == 0)); '
                         'ghost_full[ghost_i] = (S16)(U16)ghost_v; } }'),
+    },
+    'NNEvaluator_setPiece_one': {
+        'requires': ['__CPROVER_is_fresh(s, sizeof(*s))', '0 <= square && square < 64 && 0 <= oldPiece && oldPiece <= 12 && 0 <= newPiece && newPiece <= 12', 'c == 0 || c == 1',
+                     'st_ok(s)', 'ST_ACC(s, c)', 'ST_CASE(s)',
+                     '0 <= NNEvaluator_ptValue_AT(oldPiece) && NNEvaluator_ptValue_AT(oldPiece) < 10 && 0 <= NNEvaluator_ptValue_AT(newPiece) && NNEvaluator_ptValue_AT(newPiece) < 10'],
+        # (the frame of the other perspective's ghost is stated as a postcondition: with the target ghost_full[c] alone, dfcc's replacement havocked both elements)
+        'assigns': ['*s', 'ghost_full[0]', 'ghost_full[1]'],
+        # the queued state stays consistent with the from-scratch value of the changed board (incl. the overflow path with more than 4 pending changes)
+        'ensures': ['st_ok(s)', 'ST_ACC(s, c)', 'ghost_full[1 - c] == __CPROVER_old(ghost_full[1 - c])'],
+        'ghost_entry': ('if (s->kingSqComputed != -1) { unsigned ghost_v = (U16)ghost_full[c]; '
+                        'if (isNonKing(oldPiece)) ghost_v -= (U16)W(nn_getIndex(s->kingSqComputed, NNEvaluator_ptValue_AT(oldPiece), square, c == 0)); '
+                        'if (isNonKing(newPiece)) ghost_v += (U16)W(nn_getIndex(s->kingSqComputed, NNEvaluator_ptValue_AT(newPiece), square, c == 0)); '
+                        'ghost_full[c] = (S16)(U16)ghost_v; }'),
     },
     'NNEvaluator_pushState': {
         'requires': [_SELF, 'STACK_OK(self)', 'self->stack.stackTop < NNEvaluator_maxStackSize - 1', 'acc_ok(self, 0) && acc_ok(self, 1)'],
@@ -140,6 +178,7 @@ void h_lemma_index_symmetry(void) {
 }
 void h_clear(void) { struct FirstLayerState* s; hv(); FirstLayerState_clear(s); CANARY_POINT; }
 void h_setPiece(void) { struct NNEvaluator* e; int sq, a, b; hv(); NNEvaluator_setPiece(e, sq, a, b); CANARY_POINT; }
+void h_setPiece_one(void) { struct FirstLayerState* s; int sq, a, b, c; hv(); NNEvaluator_setPiece_one(s, sq, a, b, c); CANARY_POINT; }
 void h_pushState(void) { struct NNEvaluator* e; hv(); NNEvaluator_pushState(e); CANARY_POINT; }
 void h_popState(void) { struct NNEvaluator* e; hv(); NNEvaluator_popState(e); CANARY_POINT; }
 void h_forceFullEval(void) { struct NNEvaluator* e; _Bool c = (nondet_int() != 0); hv(); NNEvaluator_forceFullEval(e, c); CANARY_POINT; }
@@ -149,14 +188,15 @@ GROUPS = [
     Group('getIndex', 'h_getIndex', enforce='nn_getIndex', min_props=2),
     Group('index_symmetry', 'h_lemma_index_symmetry', min_props=2),
     Group('FirstLayerState_clear', 'h_clear', enforce='FirstLayerState_clear', min_props=2),
-    Group('setPiece', 'h_M_setPiece', enforce='NNEvaluator_setPiece', mode='M', m_pre='    hv();\n', cases=('CASE_TOP', list(range(200))), min_props=5, timeout=1800),
-    Group('pushState', 'h_M_pushState', enforce='NNEvaluator_pushState', replace=('NNEvaluator_computeL1WB',), mode='M', m_pre='    hv();\n', cases=('CASE_TOP', list(range(200))), min_props=5, timeout=1800),
-    Group('popState', 'h_M_popState', enforce='NNEvaluator_popState', replace=('NNEvaluator_forceFullEval',), mode='M', m_pre='    hv();\n', cases=('CASE_TOP', list(range(200))), min_props=3),
-    Group('forceFullEval', 'h_M_forceFullEval', enforce='NNEvaluator_forceFullEval', replace=('FirstLayerState_clear',), mode='M', m_pre='    hv();\n', cases=('CASE_TOP', list(range(200))), min_props=3),
+    Group('setPiece_one', 'h_setPiece_one', enforce='NNEvaluator_setPiece_one', min_props=5, timeout=1800,
+          cases=('case', [('CASE_AL=%d' % a, 'CASE_SL=%d' % b) for a in range(5) for b in range(5)])),
+    Group('pushState', 'h_pushState', enforce='NNEvaluator_pushState', replace=('NNEvaluator_computeL1WB',), defines=('NN_STACK_BOUND=8',), min_props=5, timeout=1800, bounded='stack of 8 levels instead of maxStackSize = 400 (the functions are uniform in the level: they touch only levels stackTop, stackTop-1 and 0)'),
+    Group('popState', 'h_popState', enforce='NNEvaluator_popState', replace=('NNEvaluator_forceFullEval',), defines=('NN_STACK_BOUND=8',), min_props=3, bounded='stack of 8 levels instead of maxStackSize = 400 (the functions are uniform in the level: they touch only levels stackTop, stackTop-1 and 0)'),
+    Group('forceFullEval', 'h_forceFullEval', enforce='NNEvaluator_forceFullEval', replace=('FirstLayerState_clear',), defines=('NN_STACK_BOUND=8',), min_props=3, bounded='stack of 8 levels instead of maxStackSize = 400 (the functions are uniform in the level: they touch only levels stackTop, stackTop-1 and 0)'),
 ]
-# built and green: getIndex, index_symmetry, FirstLayerState_clear.  The incremental-state groups (setPiece/pushState/popState/forceFullEval,
-# mode M with a 200-way case split over the stack level) did not finish in 20 min even for a single case; C07 is therefore NOT claimed.
-PROPERTIES = {'C07': ['getIndex', 'index_symmetry', 'FirstLayerState_clear']}
+# The whole-function groups of setPiece (mode M / dfcc on the 400-level stack object) did not finish; it is verified as the per-perspective
+# fragment setPiece_one (complete 5x5 case split on the queue lengths) plus the pinned loop header (composition on paper, DESIGN 13.8).
+PROPERTIES = {'C07': ['getIndex', 'index_symmetry', 'FirstLayerState_clear', 'setPiece_one', 'pushState', 'popState', 'forceFullEval']}
 ASSUMPTIONS = {'C07': [
     'A-LANE: the 256-lane first-layer accumulator is modelled by one generic 16-bit lane (lanes are independent in the generic kernels addSubWeights/copyVec: out(i) += w(row, i))',
     'first-layer weights W and ptValue are uninterpreted tables (arbitrary network)',
@@ -165,3 +205,14 @@ ASSUMPTIONS = {'C07': [
 ]}
 NOT_DECIDED = {'C07': ['computeL1WB / computeL1Out / layers 2-4 / eval(): that the value equals the from-scratch evaluation', 'SIMD build variants (intrinsics)', 'endGameEval.cpp symmetry, evaluation caches, contempt',
                        'colour-swap and mirror symmetry of the whole evaluation (only the feature-index symmetry is proved)']}
+
+MUTANTS = [
+    dict(name='getIndex_mirror_threshold', file='lib/texellib/nn/nneval.cpp', pattern=r'    if \(x >= 4\) \{\n        x \^= 7;', repl='    if (x > 4) {\n        x ^= 7;', groups=['getIndex', 'index_symmetry']),
+    dict(name='getIndex_black_no_piece_swap', file='lib/texellib/nn/nneval.cpp', pattern=r'        pt = \(pt >= 5\) \? \(pt - 5\) : \(pt \+ 5\);\n', repl='', groups=['index_symmetry']),
+    dict(name='setPiece_sub_queue_overflow', file='lib/texellib/nn/nneval.cpp', pattern=r'if \(s\.toSubLen < maxIncr\) \{', repl='if (s.toSubLen <= maxIncr) {', groups=['setPiece_one']),
+    dict(name='setPiece_add_wrong_perspective', file='lib/texellib/nn/nneval.cpp', pattern=r'int pt = ptValue\[newPiece\];\n            int idx = getIndex\(kSq, pt, square, c == 0\);', repl='int pt = ptValue[newPiece];\n            int idx = getIndex(kSq, pt, square, c != 0);', groups=['setPiece_one']),
+    dict(name='setPiece_add_goes_to_sub', file='lib/texellib/nn/nneval.cpp', pattern=r's\.toAdd\[s\.toAddLen\+\+\] = idx;', repl='s.toSub[s.toAddLen++] = idx;', groups=['setPiece_one']),
+    dict(name='popState_underflow', file='lib/texellib/nn/nneval.cpp', pattern=r'    if \(stack\.stackTop > 0\) \{\n        stack\.stackTop--;', repl='    if (stack.stackTop >= 0) {\n        stack.stackTop--;', groups=['popState']),
+    dict(name='pushState_copies_itself', file='lib/texellib/nn/nneval.cpp', pattern=r'stack\.flState\[stack\.stackTop\]\[c\] = stack\.flState\[stack\.stackTop-1\]\[c\];', repl='stack.flState[stack.stackTop][c] = stack.flState[stack.stackTop][c];', groups=['pushState']),
+    dict(name='pushState_skips_pending', file='lib/texellib/nn/nneval.cpp', pattern=r'if \(fls\.toAddLen \+ fls\.toSubLen > 0\)\n            computeL1WB\(\);', repl='if (fls.toAddLen + fls.toSubLen > maxIncr)\n            computeL1WB();', groups=['pushState']),
+]
